@@ -245,7 +245,60 @@ func runC15(c *Ctx) {
 	} else {
 		c.Unresolved("C15.X2", "jwsutil.NewJWS")
 	}
-	c.Min("C15.X2", 10)
+	// the accessors hand out copies: what Signature() returns shares no memory with the JWS (a caller wiping or reusing
+	// the returned bytes must not change what SerializeCompact writes) — `append(s.signature[:0], s.signature...)` is the
+	// idiom gone wrong: without a capacity limit it appends into the signature's own array
+	if sg := c.Method("jwsutil", "JSONWebSignature", "Signature"); sg != nil {
+		c.Analysed(sg)
+		var fresh func(v ssa.Value, d int) bool
+		fresh = func(v ssa.Value, d int) bool {
+			if d > 3 {
+				return false
+			}
+			switch x := v.(type) {
+			case *ssa.Const:
+				return x.IsNil()
+			case *ssa.MakeSlice:
+				return true
+			case *ssa.Phi:
+				for _, e := range x.Edges {
+					if !fresh(e, d+1) {
+						return false
+					}
+				}
+				return len(x.Edges) > 0
+			case *ssa.Call:
+				if g := x.Call.StaticCallee(); g != nil {
+					o := g
+					if g.Origin() != nil {
+						o = g.Origin()
+					}
+					if (pkgPathOf(o) == "slices" || pkgPathOf(o) == "bytes") && o.Name() == "Clone" {
+						return true
+					}
+				}
+				if bi, isB := x.Call.Value.(*ssa.Builtin); isB && bi.Name() == "append" && len(x.Call.Args) == 2 {
+					// append onto nil, onto a fresh slice, or onto a zero-capacity slice ([:0:0]) allocates
+					base := x.Call.Args[0]
+					if fresh(base, d+1) {
+						return true
+					}
+					if sl, isSl := base.(*ssa.Slice); isSl && sl.Max != nil && c.Path(sl.Max, nil) == "0" {
+						return true
+					}
+				}
+			}
+			return false
+		}
+		okCopy := len(returnsOf(sg)) > 0
+		for _, r := range returnsOf(sg) {
+			if !fresh(r.Results[0], 0) {
+				okCopy = false
+			}
+		}
+		c.Check("C15.X2", "Signature:returns-a-copy", okCopy, sg.Pos(), "Signature() returns nil or freshly allocated bytes on every path")
+	}
+	c.Min("C15.X2", 11)
 
 	// ---- G1
 	vec := c.Fn("jwsutil", "verifyECSignature")
